@@ -593,6 +593,8 @@ def check(ctx):
     set_iteration(ctx, o2)
     o3 = Ob('C14.3', 'K2', 'simulate_multiple_times: helper run for i ascending in both branches; futures list only appended to; results collected by walking it forwards')
     result_order(ctx, o3)
+    from .. import devices as dv
+    dv.check_defaults(ctx, o3, [('System', 'simulate_multiple_times', 'max_processes'), ('System', 'simulate', 'print_summary'), ('System', '__init__', 'resource_manager')])
     o4 = Ob('C14.4', 'K1+K2', 'no shared or carried-over state: immutable defaults, no module/class-level mutable state beyond the listed two, run() keeps queue, paused list, data and clock; events live only in the queue and the paused list')
     shared_state(ctx, o4)
     o5 = Ob('C14.5', 'K6', 'Event.__lt__ consults asset_id only after the random weight; the weight is one global draw per event, never changed')
